@@ -96,6 +96,7 @@ type VC struct {
 	assumed   map[string]bool // names of trusted contracts / axioms used
 	mapRanges map[ssa.Value]*mapRange
 	guarded   map[ssa.Value]*Guard
+	renames   map[string]string
 	curState  *State
 	defTags   []string
 
